@@ -162,6 +162,13 @@ func cmdCheck(args []string) {
 
 	known := loadKnownFindings(filepath.Join(*verif, "known_findings.txt"))
 	replayDir := filepath.Join(*verif, "replay", "out")
+	if d := os.Getenv("VERIF_OUT_DIR"); d != "" {
+		// selftest runs must not clobber the evidence of the real tree
+		replayDir = filepath.Join(d, "replay")
+		if *evOut == "" {
+			*evOut = filepath.Join(d, *prop+".json")
+		}
+	}
 	os.MkdirAll(replayDir, 0o755)
 
 	type failure struct {
